@@ -108,15 +108,27 @@ def gen_cases(chk):
                 lw = with_ninf(rng, lw, rng.choice([0.0, 0.0, 0.3, 0.9]))
                 tag = f"{kind}/off={off:g}"
                 add(kind="ess", lw=lw, tag=tag, as_list=rng.random() < 0.3)
-                add(kind="rej", lw=lw, us=gen_us(rng, lw), tag=tag, n=rng.choice([None, None, 7]))
+                add(kind="rej", lw=lw, us=gen_us(rng, lw), tag=tag, n=rng.choice([None, None, 7]),
+                    fields=rng.choice(["std", "ins"]))
                 nreq = rng.choice([None, None, 0, 1, n, 3 * n + 1])
                 add(kind="mult", lw=lw, n=nreq, choice_idx=[rng.randrange(n) for _ in range(min(3 * n + 1, 64))], tag=tag,
-                    method=rng.choice(["multinomial_resampling", "importance_sampling"]))
+                    method=rng.choice(["multinomial_resampling", "importance_sampling"]), fields=rng.choice(["std", "ins"]))
+                if n <= 60 and rng.random() < (0.3 if quick else 1.0):
+                    # a caller reusing the same sample / weight arrays for several calls
+                    ops = [rng.choice(["mult", "rej", "ess"]) for _ in range(rng.choice([2, 3, 4]))]
+                    if "mult" not in ops:
+                        ops[0] = "mult"
+                    add(kind="seq", ops=ops + ["ess", "rej", "mult"], lw=lw, us=gen_us(rng, lw), n=rng.choice([None, None, n]),
+                        choice_idx=[rng.randrange(n) for _ in range(min(3 * n + 1, 64))], tag="seq:" + kind,
+                        method=rng.choice(["multinomial_resampling", "importance_sampling"]), fields=rng.choice(["std", "ins"]))
     # corpus: boundaries named in the property
     add(kind="rej", lw=[0.0], us=[ONE_M], tag="single sample, largest u")
     add(kind="rej", lw=[0.0, 0.0, -INF], us=[ONE_M, 0.0, 0.0], tag="ties at the maximum, u = 0 on a -inf weight")
     add(kind="rej", lw=[-1e5, -1e5 - 700.0, -INF, -1e5 - 800.0], us=[0.5, 5e-324, 0.0, 5e-324], tag="offset -1e5, underflowing ratios")
-    add(kind="mult", lw=[0.0, 0.0, 0.0], n=None, choice_idx=[2, 0, 1], tag="equal weights: ESS = 3 exactly", method="multinomial_resampling")
+    add(kind="mult", lw=[0.0, 0.0, 0.0], n=None, choice_idx=[2, 0, 1], tag="equal weights: ESS = 3 exactly", method="multinomial_resampling",
+        fields="ins")
+    add(kind="seq", ops=["mult", "ess", "rej", "mult"], lw=[0.0, -1.5, -INF, -0.25], us=[0.5, 0.3, 0.0, ONE_M], n=None,
+        choice_idx=[3, 0, 1], tag="seq:corpus", method="multinomial_resampling", fields="ins")
     add(kind="mult", lw=[0.0, -INF], n=None, choice_idx=[0], tag="one effective sample", method="multinomial_resampling")
     add(kind="ess_empty", tag="empty state")
     # exact shift pairs for ESS
@@ -161,7 +173,8 @@ def gen_cases(chk):
     # weights from nlive (log_w=None path)
     for n0, m in ([(2, 6), (10, 40)] if quick else [(2, 6), (10, 40), (100, 500)]):
         ls = sorted(-0.5 * rng.gauss(0, 1) ** 2 * 5 for _ in range(m))
-        add(kind="nlive", ls=ls, nlive=n0, us=[rng.random() for _ in range(m)], mode=rng.choice(["logt", "t"]), tag="nlive path")
+        add(kind="nlive", ls=ls, nlive=n0, us=[rng.random() for _ in range(m)], mode=rng.choice(["logt", "t"]), tag="nlive path",
+            fields=rng.choice(["std", "ins"]))
     # long vectors: direct predicate only (not sent to Coq)
     for n in ([20000] if quick else [100000, 100000]):
         lw = with_ninf(rng, gen_lw(rng, n, rng.choice(["gauss", "range"])), 0.1)
@@ -197,6 +210,21 @@ def direct_predicate(c, r, partner=None):
     if "error" in r:
         return [(f"raises:{c['kind']}:{r['error']}", f"{c['kind']} raised {r['error']}: {r.get('msg', '')}")]
     kind = c["kind"]
+    if kind == "seq":
+        # every call of the sequence must satisfy the clauses with respect to the weights the caller passed
+        for j, (sc, sr) in enumerate(sub_cases(c, r)):
+            for key, what in direct_predicate(sc, sr):
+                bad.append((key, f"call {j + 1} ({sc['kind']}) of the sequence {c['ops']} on the same arrays: {what}"))
+        return bad
+    # no function of the property may write to its inputs
+    if r.get("inputs_changed"):
+        bad.append((f"inputs-mutated:{kind}", f"{kind} call changed its input array(s) {r['inputs_changed']} "
+                    "(compared bit by bit before / after)"))
+    # returned records are elements of the nested samples: every field, bit by bit
+    for fk in ("fields_bad", "fields_bad_noidx"):
+        if r.get(fk):
+            bad.append((f"subset:fields:{kind}", f"returned samples differ from nested_samples[indices] in field(s) {r[fk]} "
+                        f"({r.get('n_fields')} fields, {c.get('fields', 'std')} dtype)"))
     lw = c.get("lw", [])
     n = len(lw)
     fin = [v for v in lw if v != -INF]
@@ -310,6 +338,19 @@ def direct_predicate(c, r, partner=None):
     return bad
 
 
+def sub_cases(c, r):
+    """the calls of a `seq` case as stand-alone (case, result) pairs"""
+    out = []
+    for op, sr in zip(c["ops"], r.get("ops", [])):
+        sc = {"kind": op, "lw": c["lw"], "tag": c["tag"], "fields": c.get("fields", "std")}
+        if op == "rej":
+            sc.update(us=c["us"], n=c.get("n"))
+        elif op == "mult":
+            sc.update(n=c.get("n"), choice_idx=c["choice_idx"], method=c.get("method"))
+        out.append((sc, sr))
+    return out
+
+
 def freq_predicate(c, r):
     """exact binomial bounds at total false-alarm probability below 1e-9 per case"""
     from scipy.stats import binom
@@ -321,6 +362,8 @@ def freq_predicate(c, r):
     mx = max(fin)
     alpha = 1e-9 / (2 * n)
     bad, tests = [], 0
+    if r.get("inputs_changed"):
+        bad.append(("inputs-mutated:freq", f"repeated {c['method']} draws changed the input array(s) {r['inputs_changed']}"))
     if c["method"] == "rejection_sampling":
         trials = c["reps"]
         qs = [math.exp(v - mx) if v != -INF else 0.0 for v in lw]
@@ -359,47 +402,72 @@ def cdy1(x):
     return f"({m}, {e})%Z"
 
 
+def record_codes(n, n_fields):
+    """integer checksum of pristine record i over all fields (child: field k of row i = (i + 1)(k + 2), x = i)"""
+    tot = sum(k + 2 for k in range(n_fields))
+    return [(i + 1) * tot - (i + 1) * 2 + i for i in range(n)]
+
+
+def evs_for(c, r):
+    """-> (size, [(label, coq expression)]) for one call"""
+    k = c["kind"]
+    ev, size = [], 0
+    if "error" in r:
+        return 0, []
+    if k in ("ess", "ess_state"):
+        lw = c["lw"] if k == "ess" else r["w"]
+        if all(v == -INF for v in lw) or any(v != v or v == INF for v in lw) or r["ess"] != r["ess"] \
+                or abs(r["ess"]) == INF:
+            return 0, []
+        label = "ESS within tol of the enclosure" if k == "ess" else STATE_LABEL
+        ev.append((label, f"check_ess P100 {cL(cdy(v) for v in lw)} {cdy1(r['ess'])}"))
+        size = 2 * len(lw)
+    elif k == "rej":
+        lw, n = c["lw"], len(c["lw"])
+        idx = cL(cN(j) for j in r["idx"])
+        lab = "rejection: indices increasing, in range, samples = samples[indices] (ids and all-field record codes)"
+        ev.append((lab, f"check_subset true {cN(n)} {idx} {cL(cN(j) for j in range(n))} {cL(cN(j) for j in r['ids'])}"))
+        if all(v >= 0 for v in r["codes"]):
+            ev.append((lab, f"check_subset true {cN(n)} {idx} {cL(cN(j) for j in record_codes(n, r['n_fields']))} "
+                            f"{cL(cN(j) for j in r['codes'])}"))
+        ev.append(("rejection: every decision agrees with log_w - max > log u",
+                   f"check_rej P100 {cL(cdy(v) for v in lw)} {cL(cdy1(u) for u in c['us'])} {idx}"))
+        size = n
+    elif k == "mult":
+        lw, n = c["lw"], len(c["lw"])
+        if r["call"] is None or r["call"]["p"] is None or any(v != v or abs(v) == INF for v in r["call"]["p"]):
+            return 0, []
+        idx = cL(cN(j) for j in r["idx"])
+        lab = "multinomial: samples = samples[indices], indices in range (ids and all-field record codes)"
+        ev.append((lab, f"check_subset false {cN(n)} {idx} {cL(cN(j) for j in range(n))} {cL(cN(j) for j in r['ids'])}"))
+        if all(v >= 0 for v in r["codes"]):
+            ev.append((lab, f"check_subset false {cN(n)} {idx} {cL(cN(j) for j in record_codes(n, r['n_fields']))} "
+                            f"{cL(cN(j) for j in r['codes'])}"))
+        ev.append(("multinomial: p handed to choice = exp(log_w - lse) within tol",
+                   f"check_probs P100 {cL(cdy(v) for v in lw)} {cL(cdy1(v) for v in r['call']['p'])}"))
+        size = 2 * n
+        if c["n"] is None:
+            ev.append(("multinomial: default n = integer part of ESS",
+                       f"check_default_n P100 {cL(cdy(v) for v in lw)} {cN(r['call']['size'])}"))
+            size += 2 * n
+    return size, ev
+
+
 def coq_items(cases, res):
-    """-> list of (case index, size, [(label, coq expression returning bool or (bool * list nat))])"""
+    """-> list of (case index, size, [(label, coq expression returning bool or (bool * list nat))]);
+    the calls of a `seq` case are judged one by one against the weights the caller passed"""
     items = []
     for i, (c, r) in enumerate(zip(cases, res)):
         if c.get("no_coq") or "error" in r:
             continue
-        k = c["kind"]
-        ev = []
-        if k in ("ess", "ess_state"):
-            lw = c["lw"] if k == "ess" else r["w"]
-            if all(v == -INF for v in lw) or any(v != v or v == INF for v in lw) or r["ess"] != r["ess"] \
-                    or abs(r["ess"]) == INF:
-                continue
-            label = "ESS within tol of the enclosure" if k == "ess" else STATE_LABEL
-            ev.append((label, f"check_ess P100 {cL(cdy(v) for v in lw)} {cdy1(r['ess'])}"))
-            size = 2 * len(lw)
-        elif k == "rej":
-            lw, n = c["lw"], len(c["lw"])
-            ids_in = cL(cN(j) for j in range(n))
-            ev.append(("rejection: indices increasing, in range, samples = samples[indices]",
-                       f"check_subset true {cN(n)} {cL(cN(j) for j in r['idx'])} {ids_in} {cL(cN(j) for j in r['ids'])}"))
-            ev.append(("rejection: every decision agrees with log_w - max > log u",
-                       f"check_rej P100 {cL(cdy(v) for v in lw)} {cL(cdy1(u) for u in c['us'])} {cL(cN(j) for j in r['idx'])}"))
-            size = n
-        elif k == "mult":
-            lw, n = c["lw"], len(c["lw"])
-            if r["call"] is None or r["call"]["p"] is None or any(v != v for v in r["call"]["p"]):
-                continue
-            ids_in = cL(cN(j) for j in range(n))
-            ev.append(("multinomial: samples = samples[indices], indices in range",
-                       f"check_subset false {cN(n)} {cL(cN(j) for j in r['idx'])} {ids_in} {cL(cN(j) for j in r['ids'])}"))
-            ev.append(("multinomial: p handed to choice = exp(log_w - lse) within tol",
-                       f"check_probs P100 {cL(cdy(v) for v in lw)} {cL(cdy1(v) for v in r['call']['p'])}"))
-            size = 2 * n
-            if c["n"] is None:
-                ev.append(("multinomial: default n = integer part of ESS",
-                           f"check_default_n P100 {cL(cdy(v) for v in lw)} {cN(r['call']['size'])}"))
-                size += 2 * n
-        else:
-            continue
-        items.append((i, size, ev))
+        pairs = sub_cases(c, r) if c["kind"] == "seq" else [(c, r)]
+        size, ev = 0, []
+        for sc, sr in pairs:
+            s1, e1 = evs_for(sc, sr)
+            size += s1
+            ev += e1
+        if ev:
+            items.append((i, size, ev))
     return items
 
 
@@ -463,7 +531,11 @@ def run(chk):
                 "multinomial method names; exact ESS shift pairs; effective_n_posterior_samples of every integral-state class "
                 "(_NSIntegralState during the run and after finalise, _INSIntegralState after update_evidence with and without "
                 "live points: live-heavy / comparable / nested-heavy mass, -inf entries, shifted pairs; values read twice with "
-                "the returned weight array overwritten in between); the nlive path. "
+                "the returned weight array overwritten in between); the nlive path. Samples are structured arrays built by "
+                "nessai's get_dtype with every field its samples carry (x, y, logP, logL, it and - half of the cases - the "
+                "registered extras logW, logQ, logU), all non-zero and distinct per row; returned records are compared with "
+                "nested_samples[indices] field by field bit-exactly; every input array is compared bit-exactly before/after "
+                "each call; `seq` cases make 5-7 calls (multinomial / rejection / ESS in random order) on the SAME arrays. "
                 "non-trivial = at least two finite distinct weights; distinct by full case description")
     chk.assumptions += [
         "oracle: np.random.rand returns independent uniforms in [0, 1); validated by exact binomial bounds on selection counts "
@@ -534,9 +606,9 @@ def run(chk):
             if not ok:
                 badc.setdefault(label, []).append((i, det))
     labels = ["ESS within tol of the enclosure", STATE_LABEL,
-              "rejection: indices increasing, in range, samples = samples[indices]",
+              "rejection: indices increasing, in range, samples = samples[indices] (ids and all-field record codes)",
               "rejection: every decision agrees with log_w - max > log u",
-              "multinomial: samples = samples[indices], indices in range",
+              "multinomial: samples = samples[indices], indices in range (ids and all-field record codes)",
               "multinomial: p handed to choice = exp(log_w - lse) within tol",
               "multinomial: default n = integer part of ESS"]
     for label in labels:
